@@ -362,22 +362,26 @@ class StmtMixin:
     def setattr(self, st, base, attr, v, node):
         if not isinstance(base, VRef):
             self.unsupported(node, 'attribute assignment on %r' % (base,))
-        ty = self.reg.field_type(base.cls, attr)
-        if ty is None and base.cls is not None:
-            for ci in self.mro_infos(base.cls):
+        cls = base.cls
+        d0 = (self.reg.classes.get(cls) or self.reg.class_by_key.get(cls)) if cls else None
+        ty = d0.fields.get(attr) if d0 is not None else None
+        if ty is None and cls is not None:
+            for ci in self.mro_infos(cls):
                 d = self.reg.class_by_key.get('%s:%s' % (ci.module.name, ci.qualname))
                 if d is not None and attr in d.fields:
                     ty = d.fields[attr]
                     break
-        if ty is None and base.cls is not None:
-            cp = self.class_property(base.cls, attr)
-            if cp is not None and cp[2] is not None:
-                return [s for s, _ in self.call_accessor(st, cp[0], cp[2], [base, v], node)]
-            f = self.find_setter(base.cls, attr)
-            if f is not None:
-                return [s for s, _ in self.call_repo(st, f, [base, v], {}, node)]
+                e = ci.class_attrs.get(attr)
+                if e is not None and isinstance(e, ast.Call) and isinstance(e.func, ast.Name) and e.func.id == 'property' and len(e.args) > 1:
+                    return [s for s, _ in self.call_accessor(st, ci, e.args[1], [base, v], node)]
+                if attr in ci.setters:
+                    return [s for s, _ in self.call_repo(st, ci.setters[attr], [base, v], {}, node)]
         if ty is None:
-            self.unsupported(node, 'no declared type for field %s.%s' % (base.cls, attr))
+            ty = self.reg.field_type(cls, attr) if cls else None
+        if ty is None:
+            ty = self.infer_field_type(cls, attr)
+        if ty is None:
+            self.unsupported(node, 'no declared type for field %s.%s' % (cls, attr))
         try:
             self.write_field(st, base, attr, ty, v)
         except Unsupported as e:
